@@ -403,10 +403,15 @@ where
                 // here. Set a maximum backoff so that the client doesn't effectively backoff
                 // infinitely when there are network issues unrelated to server load.
                 const DEFAULT_MAX_BACKOFF_INTERVAL: Duration = Duration::from_secs(10);
-                let new_interval = std::cmp::min(
-                    current_interval.checked_mul(2).unwrap_or(current_interval),
-                    self.max_backoff_interval
-                        .unwrap_or(DEFAULT_MAX_BACKOFF_INTERVAL),
+                // Never back off to an interval shorter than the current one, which already
+                // reflects the server-provided interval plus any `slow_down` increases.
+                let new_interval = std::cmp::max(
+                    current_interval,
+                    std::cmp::min(
+                        current_interval.checked_mul(2).unwrap_or(current_interval),
+                        self.max_backoff_interval
+                            .unwrap_or(DEFAULT_MAX_BACKOFF_INTERVAL),
+                    ),
                 );
                 return DeviceAccessTokenPollResult::ContinueWithNewPollInterval(new_interval);
             }
